@@ -393,7 +393,7 @@ def gen_transformer(rng, invertible=True):
                 "model": rng.choice(["additive", "multiplicative"])}
     if r < 0.66:
         return {"kind": "boxcox", "method": "mle",
-                "bounds": rng.choice([None, None, [-1, 2]])}
+                "bounds": rng.choice([None, None, [-1, 2], [0, 1], [0, 2]])}
     if r < 0.78:
         return {"kind": "log"}
     if r < 0.9:
